@@ -176,9 +176,10 @@ def make_wellformed(ctx, rng, R, fmt, prec, writer, kind=None, extreme=False):
         vals = [G.gen_mt_value(rng, prec, extreme) for _ in range(nreal)]
         if writer == "py":
             ws = rng.choice(["std", "std", "wide", "wild", "oneline"])
-            data = G.write_mt(rng, prec, pat, vals, {"ws": ws, "title_len": rng.choice([0, 1, 40, 60, 79]),
-                                                     "final_newline": rng.random() < 0.8})
+            mopts = {"ws": ws, "title_len": rng.choice([0, 1, 40, 60, 79]), "final_newline": rng.random() < 0.8}
+            data = G.write_mt(rng, prec, pat, vals, mopts)
             case["style"] = "mt-" + ws
+            case["gen"] = {"pat": pat, "vals": vals, "opts": mopts}
         else:
             title = [ord(c) for c in G.rand_text(rng, rng.choice([0, 10, 60, 79]))]
             case["print_cmd"] = ("mt", [1 if cplx else 0] + blist(title) + csc_tokens(m, n, cp, ri, vals))
@@ -201,6 +202,7 @@ def make_wellformed(ctx, rng, R, fmt, prec, writer, kind=None, extreme=False):
                 data = G.write_rb(rng, prec, pat, vals, pf, inf, vf_, opts)
             case["style"] = "%s/%s/%s" % (pf["style"], vf_["kind"] + ("P%d" % vf_["scale"] if vf_["scale"] else ""), vf_["text"])
             case["descr"] = [pf["text"], inf["text"], vf_["text"]]
+            case["gen"] = {"pat": pat, "vals": vals, "pf": pf, "inf": inf, "vf": vf_, "opts": opts}
         else:
             # the Coq printer knows E/D/F with optional scale; 'C' layout is Python-only
             if vf_["kind"] == "C":
@@ -345,7 +347,7 @@ def judge_wellformed(case, cres, mres):
                     if same_float(v, best):
                         continue
                     if same_float(v, pipe):
-                        finding = {"defect": "single-precision-double-rounding", "reader": fmt}
+                        finding = {"defect": "single-precision-double-rounding"}
                         case["finding_detail"] = "value %d: decimal %s -> got %r, nearest float is %r" % (i, dec_str(d), v, best)
                         continue
                     oracle = "value %d: decimal %s read as %r, correctly rounded is %r" % (i, dec_str(d), v, best); break
@@ -386,12 +388,45 @@ def dec_str(d):
 
 
 def key_of(case, what):
-    return {"reader": case["fmt"], "prec": case["prec"], "class": case["class"], "writer": case.get("writer", ""),
-            "symptom": what.split(":")[0][:40]}
+    return {"reader": case["fmt"], "prec": case["prec"], "class": case["class"], "symptom": what.split(":")[0][:40]}
+
+
+def shrink_case(ctx, R, case, still_fails):
+    """keep the first k columns (k = 1, 2, 4, ...) of a python-written case while it still fails"""
+    g = case.get("gen")
+    if not g:
+        return case
+    import random
+    pk, m, n, cp, ri = g["pat"]
+    cplx = case["prec"] in "cz"
+    k = 1
+    while k < n:
+        cp2 = cp[:k + 1]; nz = cp2[-1]; ri2 = ri[:nz]
+        vals2 = g["vals"][: nz * (2 if cplx else 1)]
+        pat2 = (pk, m, k, cp2, ri2)
+        rr = random.Random(12345)
+        if case["fmt"] == "mt":
+            data = G.write_mt(rr, case["prec"], pat2, vals2, g["opts"])
+        elif case["fmt"] == "hb":
+            data = G.write_hb(rr, case["prec"], pat2, vals2, g["pf"], g["inf"], g["vf"], g["opts"])
+        else:
+            data = G.write_rb(rr, case["prec"], pat2, vals2, g["pf"], g["inf"], g["vf"], g["opts"])
+        c2 = {kk: vv for kk, vv in case.items() if kk not in ("gen", "data", "path", "exp")}
+        c2["data"] = data
+        c2["exp"] = {"m": m, "n": k, "nnz": nz, "cp": cp2, "ri": ri2, "dec": vals2}
+        c2["path"] = R.newfile(data, "shrink")
+        c2["shrunk_from_ncol"] = n
+        try:
+            if still_fails(c2):
+                return c2
+        except vf.CheckError:
+            pass
+        k *= 2
+    return case
 
 
 def replay_obj(case):
-    o = {k: v for k, v in case.items() if k not in ("data", "path")}
+    o = {k: v for k, v in case.items() if k not in ("data", "path", "gen")}
     o["data_b64"] = base64.b64encode(case["data"]).decode()
     return o
 
@@ -419,7 +454,8 @@ def run(ctx):
         "exponents always carry their letter (E/D/e/d); the Fortran letter-less three-digit form 0.1234-123 is read as 0.1234 by atof and is outside the quantifier",
         "a kP scale prefix in front of an F descriptor is accepted syntactically; the value returned is the printed decimal (property text), not the Fortran-rescaled one",
         "Coq: the complex twins' (re,im) pairing loop is modelled as reading 2*nnz reals (equivalent loop bound); pairing itself is covered by the correspondence only",
-        "Coq: value round trip is stated on exact decimals (neg,mant,e10); the last step decimal -> binary is the libc fact above",
+        "Coq: value round trip is stated on exact decimals (neg,mant,e10) and as rationals (values_read_back_exact_partial); "
+        "the last step decimal -> binary (Definition values_rounded_full) is the libc fact above",
     ]
     ctx.cov["trusted_base"] += [
         "tools/reader_gen.py: independent writer and exact binary rounding (Python fractions) used as the value oracle",
@@ -436,9 +472,22 @@ def run(ctx):
     def report(case, what, found_input=True, key=None):
         key = key or key_of(case, what)
         sig = json.dumps(key, sort_keys=True)
-        if sig in fails["sigs"] or len(fails["sigs"]) >= MAX_REPORT:
+        # the two written-up defect classes (findings/C20-*.md) do not use up the reporting budget
+        budget_used = len([x for x in fails["sigs"] if '"defect"' not in x])
+        if sig in fails["sigs"] or ("defect" not in key and budget_used >= MAX_REPORT):
             return
         fails["sigs"].add(sig)
+        if found_input and case.get("gen") and case["class"] == "wellformed" and "defect" not in key:
+            def still_fails(c2):
+                mo = R.run_model(["parse %s %d %s" % (c2["fmt"], 1 if c2["prec"] in "cz" else 0, c2["path"])])[0]
+                cr = R.run_c(["read %s %s %s" % (c2["fmt"], c2["prec"], c2["path"])], flavor="hooks", tmo=8)[0]
+                oracle, _, _, _ = judge_wellformed(c2, cr, parse_model(mo))
+                if oracle:
+                    c2["what_shrunk"] = oracle
+                return bool(oracle)
+            case = shrink_case(ctx, R, case, still_fails)
+            what = case.get("what_shrunk", what)
+            store_corpus(ctx, case, what)
         obj = replay_obj(case)
         obj["what"] = what
         ctx.violation(what, obj, key=key, found_input=found_input)
@@ -448,7 +497,7 @@ def run(ctx):
     cases += sample_file_cases(ctx)
 
     # ---------------------------------------------------------------- 1. generated well-formed files
-    nwf = 1400 if quick else 16000
+    nwf = 2400 if quick else 40000
     for i in range(nwf):
         fmt = rng.choice(["hb", "hb", "rb", "mt"])
         prec = rng.choice("sdcz")
@@ -483,7 +532,7 @@ def run(ctx):
     ctx.log("well-formed stream: %d files, %.1fs" % (len(cases), time.time() - t0))
 
     # ---------------------------------------------------------------- 2. model-defined stream (damaged files) under ASan
-    nmal = 1500 if quick else 14000
+    nmal = 2400 if quick else 36000
     base = [c for c in cases if c["class"] == "wellformed" and len(c["data"]) < 6000]
     mal = []
     for i in range(nmal):
@@ -528,8 +577,14 @@ def evaluate(ctx, R, cases, report, flavor="hooks"):
     idx_ood_run = sorted(idx_ood[: (48 if ctx.quick() else 480)])
     cres = [(None, "notrun")] * len(cases)
     tm = time.time()
+    idx_var = [i for i in idx_def if cases[i]["class"] == "legal-variant"]
+    idx_def = [i for i in idx_def if cases[i]["class"] != "legal-variant"]
     r1 = R.run_c(["read %s %s %s" % (cases[i]["fmt"], cases[i]["prec"], cases[i]["path"]) for i in idx_def], flavor=flavor, tmo=8)
     for i, r in zip(idx_def, r1):
+        cres[i] = r
+    r3 = R.run_c(["read %s %s %s" % (cases[i]["fmt"], cases[i]["prec"], cases[i]["path"]) for i in idx_var], flavor=flavor, tmo=2,
+                 nproc=vf.NCPU)
+    for i, r in zip(idx_var, r3):
         cres[i] = r
     r2 = R.run_c(["read %s %s %s" % (cases[i]["fmt"], cases[i]["prec"], cases[i]["path"]) for i in idx_ood_run], flavor=flavor, tmo=2,
                  nproc=vf.NCPU)
@@ -667,6 +722,22 @@ def sample_file_cases(ctx):
         out.append({"class": "wellformed", "fmt": "hb", "prec": prec, "writer": "repo", "pattern": "sample", "style": "EXAMPLE/" + name,
                     "data": data, "exp": {"m": m, "n": n, "nnz": nnz, "cp": cp, "ri": ri, "dec": decs}})
     return out
+
+
+def store_corpus(ctx, case, what):
+    """minimised failing inputs go to corpus/C20/ when VERIF_STORE_CORPUS=1 (off by default: the corpus
+    directory is version-controlled and a run on a mutated tree should not modify it silently)"""
+    if os.environ.get("VERIF_STORE_CORPUS") != "1":
+        return
+    d = os.path.join(vf.VERIF, "corpus", "C20")
+    os.makedirs(d, exist_ok=True)
+    if len([f for f in os.listdir(d) if f.startswith("auto-")]) >= 40:
+        return
+    o = replay_obj(case)
+    o["what_when_stored"] = what
+    name = "auto-%s.json" % vf.sha(o["data_b64"], case["fmt"], case["prec"])[:12]
+    with open(os.path.join(d, name), "w") as f:
+        json.dump(o, f, indent=1)
 
 
 def load_corpus(ctx, R):
